@@ -4,6 +4,7 @@
   every prior local state, both values of force and no_cleaning.
 -/
 import Kapture.Lemmas.C17
+import Kapture.Lemmas.C17Gen
 
 namespace Kapture.C17
 
@@ -76,6 +77,44 @@ theorem honest_server_resumes (content : Bytes) (good : Bytes → Bool) (hg : go
   have hc0 : content.length ≠ 0 := by omega
   simp [install, probStatus, download, downloadLoop, downloadFile, downloadResume, remoteSize, request, honest,
     h0, h1, hg, hlen, hne, hk0, hk2, hnlt, hc0, List.take_append_drop]
+
+/-- the hand-written `probStatus` IS the decision list GENERATED from Dataset.prob_status on every run (Gen/ProbStatus.lean: the
+  ordered conditions marker / no archive / size unknown / bigger / smaller / checksum mismatch and the default `downloaded`; the
+  translator also checks that is_sha256_consistent hashes the archive and compares it with the published checksum and nothing
+  else, and that install() tests `status != 'downloaded'` before untar_file): whenever the model answers, it answers what the
+  first matching generated rule says -/
+theorem probStatus_follows_generated_rules (srv : Server) (good : Bytes → Bool) (w : World) :
+    match (probStatus srv good w).2 with
+    | Except.ok st =>
+      statusOfName (evalRules (atomEnv good w (match (remoteSize srv w).2 with
+        | Except.ok s => s
+        | Except.error _ => none)) Gen.ProbStatus.rules Gen.ProbStatus.defaultStatus) = some st
+    | Except.error _ => True := by
+  unfold probStatus
+  cases hi : w.installed
+  · cases ha : w.archive with
+    | none => simp [hi, ha, evalRules, atomEnv, Gen.ProbStatus.rules, statusOfName]
+    | some a =>
+      simp only [Bool.false_eq_true, if_false]
+      cases hr : remoteSize srv w with
+      | mk w' r =>
+        cases r with
+        | error e => simp
+        | ok s =>
+          cases s with
+          | none => simp [evalRules, atomEnv, Gen.ProbStatus.rules, statusOfName, hi, ha]
+          | some n =>
+            simp only
+            by_cases h1 : a.length > n
+            · simp [h1, evalRules, atomEnv, Gen.ProbStatus.rules, statusOfName, hi, ha]
+            · by_cases h2 : a.length < n
+              · simp [h1, h2, evalRules, atomEnv, Gen.ProbStatus.rules, statusOfName, hi, ha]
+              · cases hg : good a <;>
+                  simp [h1, h2, hg, evalRules, atomEnv, Gen.ProbStatus.rules, Gen.ProbStatus.defaultStatus, statusOfName, hi, ha]
+  · simp [hi, evalRules, atomEnv, Gen.ProbStatus.rules, statusOfName]
+
+/-- ... and the status under which the model extracts is the generated gate of install() -/
+theorem install_gate_is_generated : statusOfName Gen.ProbStatus.installGate = some Status.downloaded := rfl
 
 /-- HISTORIES: whatever sequence of invocations is made on one install directory (any flags, any server behaviour, each
   starting from whatever the previous ones left on disk), everything ever extracted along the way has the published
